@@ -915,7 +915,8 @@ end Agd.Device
 #print axioms Agd.Tie.TrC03.dedicated_never_linked
 #print axioms Agd.Tie.TrC03.newDeviceResult_nil_iff
 #print axioms Agd.Tie.TrC03.isProfileDBNotFound_eq
-#print axioms Agd.Tie.TrC03.isBlockedByAccess_eq
+#print axioms Agd.Tie.TrC03.isBlockedGlobally_eq
+#print axioms Agd.Tie.TrC03.isBlockedByProfile_eq
 #print axioms Agd.Tie.TrC03.isBlockedByAccess_profile_only
 #print axioms Agd.Tie.TrC03.wrap_trace
 #print axioms Agd.Tie.TrC03.wrap_tr
